@@ -350,7 +350,7 @@ def _install_datalist_key():
             res = orig_lookup_value(self, table_id, key)
         except KeyError:
             _count("datalist_key.KeyError")
-            _local.setdefault("datalist_keyerrors", []).append((table_id, key))
+            _local.setdefault("datalist_keyerrors", []).append((table_id, key, getattr(self, "_datalist_name", "?")))
             raise
         try:
             k = getattr(res, "key", None)
